@@ -1,5 +1,6 @@
 import GapicModel.Model.Emit
 import GapicModel.Model.NamingOptions
+import GapicModel.Model.Layout
 import GapicModel.Lemmas.RegexCaps
 /-
 C11 — the emitted file set is well-formed and placed by package-derived naming.
@@ -537,5 +538,165 @@ theorem unversioned_renders_have_duplicates :
         templatesDefault).Nodup := by decide +kernel
 
 end Unique
+
+
+/-! ## Nested sub-packages: every view of the tree is rendered, every file sits under its own sub-package -/
+
+section Nested
+open GapicModel.Model.Emit GapicModel.Model.Layout
+
+theorem mem_prefixes (p v : Path) : v ∈ prefixes p ↔ v ≠ [] ∧ ∃ w, p = v ++ w := by
+  induction p generalizing v with
+  | nil =>
+    simp only [prefixes, List.not_mem_nil, false_iff, not_and, not_exists]
+    intro hv w hw
+    cases v with
+    | nil => exact hv rfl
+    | cons a t => simp at hw
+  | cons s r ih =>
+    simp only [prefixes, List.mem_cons, List.mem_map]
+    constructor
+    · rintro (h | ⟨u, hu, h⟩)
+      · subst h; exact ⟨by simp, r, rfl⟩
+      · subst h
+        obtain ⟨_, w, hw⟩ := (ih u).mp hu
+        exact ⟨by simp, w, by simp [hw]⟩
+    · rintro ⟨hv, w, hw⟩
+      cases v with
+      | nil => exact absurd rfl hv
+      | cons a u =>
+        simp only [List.cons_append, List.cons.injEq] at hw
+        obtain ⟨rfl, hr⟩ := hw
+        by_cases hu : u = []
+        · left; simp [hu]
+        · right; exact ⟨u, (ih u).mpr ⟨hu, w, hr⟩, rfl⟩
+
+/-- the sub-package of every target file is a view, and **the views are closed under non-empty prefixes**: the
+intermediate packages between the API package and a deeply nested file are rendered too, whether or not any file
+lives there -/
+theorem views_closed (subs : List Path) :
+    (∀ p ∈ subs, p ≠ [] → p ∈ viewsOf subs) ∧
+    (∀ v w, v ++ w ∈ viewsOf subs → v ≠ [] → v ∈ viewsOf subs) := by
+  constructor
+  · intro p hp hne
+    simp only [viewsOf, mem_dedup, List.mem_flatMap]
+    exact ⟨p, hp, (mem_prefixes p p).mpr ⟨hne, [], by simp⟩⟩
+  · intro v w h hne
+    simp only [viewsOf, mem_dedup, List.mem_flatMap] at h ⊢
+    obtain ⟨p, hp, hvw⟩ := h
+    obtain ⟨_, x, hx⟩ := (mem_prefixes p _).mp hvw
+    exact ⟨p, hp, (mem_prefixes p v).mpr ⟨hne, w ++ x, by simp [hx]⟩⟩
+
+/-- no view is visited twice, and only prefixes of target sub-packages are views (nothing is invented) -/
+theorem views_exact (subs : List Path) :
+    (viewsOf subs).Nodup ∧ ∀ v ∈ viewsOf subs, v ≠ [] ∧ ∃ p ∈ subs, ∃ w, p = v ++ w := by
+  refine ⟨nodup_dedup _, ?_⟩
+  intro v hv
+  simp only [viewsOf, mem_dedup, List.mem_flatMap] at hv
+  obtain ⟨p, hp, h⟩ := hv
+  obtain ⟨hne, w, hw⟩ := (mem_prefixes p v).mp h
+  exact ⟨hne, p, hp, w, hw⟩
+
+/-- the two whole-template gates of `_render_template` -/
+def templateOn (o : Opts) (tname : Str) : Prop :=
+  ¬ (!o.metadata && ['g', 'a', 'p', 'i', 'c', '_', 'm', 'e', 't', 'a', 'd', 'a', 't', 'a', '.', 'j', 's', 'o', 'n', '.', 'j', '2'].isSuffixOf tname) = true ∧
+  ¬ (startsWith ['%', 'n', 'a', 'm', 'e', 's', 'p', 'a', 'c', 'e', '/', '%', 'n', 'a', 'm', 'e', '/'] tname && o.unversionedDisabled) = true
+
+theorem renderTemplate_sub (o : Opts) (sh : Shape) (tname : Str) (hon : templateOn o tname)
+    (hs : hasVar (parseTemplate tname) .sub = true) :
+    renderTemplate o sh tname =
+      (sh.subs.flatMap fun sp => renderView o sh.naming tname (parseTemplate tname) sp.view sp.services sp.protos) ++
+      (if sh.subs.isEmpty then renderView o sh.naming tname (parseTemplate tname) [] (allServices sh) (allProtos sh)
+       else renderView o sh.naming tname (parseTemplate tname) [] sh.root.services sh.root.protos) := by
+  obtain ⟨h1, h2⟩ := hon
+  simp only [renderTemplate, h1, h2, hs, if_true, if_false, Bool.false_eq_true]
+
+/-- **One types module per target proto, under the proto's OWN sub-package path** (any depth, any gaps): a
+`%sub/.../%proto` template renders, for every target file `p`, the name with `%sub = p.sub`. -/
+theorem proto_file_under_own_subpackage (o : Opts) (nm : Naming) (ps : List ProtoAt) (tname : Str)
+    (hon : templateOn o tname) (hs : hasVar (parseTemplate tname) .sub = true)
+    (hp : hasVar (parseTemplate tname) .proto = true) (p : ProtoAt) (hmem : p ∈ ps) :
+    getFilename ⟨nm, p.sub, none, some p.module⟩ (parseTemplate tname) ∈ renderTemplate o (shapeOf nm ps) tname := by
+  rw [renderTemplate_sub o _ tname hon hs]
+  by_cases hsub : p.sub = []
+  · apply List.mem_append_right
+    have hroot : p.module ∈ (subPkgAt ps []).protos := by
+      simp only [subPkgAt, List.mem_map, List.mem_filter, decide_eq_true_eq]
+      exact ⟨p, ⟨hmem, hsub⟩, rfl⟩
+    split
+    · simp only [renderView, hp, if_true, List.mem_map, allProtos, List.mem_append]
+      exact ⟨p.module, Or.inl hroot, by rw [hsub]; rfl⟩
+    · simp only [renderView, hp, if_true, List.mem_map]
+      exact ⟨p.module, hroot, by rw [hsub]; rfl⟩
+  · apply List.mem_append_left
+    simp only [List.mem_flatMap, shapeOf, List.mem_map]
+    refine ⟨subPkgAt ps p.sub, ⟨p.sub, ?_, rfl⟩, ?_⟩
+    · exact (views_closed _).1 p.sub (List.mem_map.mpr ⟨p, hmem, rfl⟩) hsub
+    · simp only [renderView, hp, if_true, List.mem_map, subPkgAt, List.mem_filter, decide_eq_true_eq]
+      exact ⟨p.module, ⟨p, ⟨hmem, rfl⟩, rfl⟩, rfl⟩
+
+/-- **One service package per service, under the sub-package of the file that defines it** -/
+theorem service_file_under_own_subpackage (o : Opts) (nm : Naming) (ps : List ProtoAt) (tname : Str)
+    (hon : templateOn o tname) (hs : hasVar (parseTemplate tname) .sub = true)
+    (hp : hasVar (parseTemplate tname) .proto = false) (hv : hasVar (parseTemplate tname) .service = true)
+    (hg : serviceGate tname o = true) (p : ProtoAt) (hmem : p ∈ ps) (svc : Str) (hsvc : svc ∈ p.services) :
+    getFilename ⟨nm, p.sub, some svc, none⟩ (parseTemplate tname) ∈ renderTemplate o (shapeOf nm ps) tname := by
+  rw [renderTemplate_sub o _ tname hon hs]
+  have hat : svc ∈ (subPkgAt ps p.sub).services := by
+    simp only [subPkgAt, List.mem_flatMap, List.mem_filter, decide_eq_true_eq]
+    exact ⟨p, ⟨hmem, rfl⟩, hsvc⟩
+  by_cases hsub : p.sub = []
+  · apply List.mem_append_right
+    rw [hsub] at hat
+    split
+    · simp only [renderView, hp, hv, hg, if_true, if_false, Bool.false_eq_true, List.mem_map, allServices, List.mem_append]
+      exact ⟨svc, Or.inl hat, by rw [hsub]; rfl⟩
+    · simp only [renderView, hp, hv, hg, if_true, if_false, Bool.false_eq_true, List.mem_map]
+      exact ⟨svc, hat, by rw [hsub]; rfl⟩
+  · apply List.mem_append_left
+    simp only [List.mem_flatMap, shapeOf, List.mem_map]
+    refine ⟨subPkgAt ps p.sub, ⟨p.sub, ?_, rfl⟩, ?_⟩
+    · exact (views_closed _).1 p.sub (List.mem_map.mpr ⟨p, hmem, rfl⟩) hsub
+    · simp only [renderView, hp, hv, hg, if_true, if_false, Bool.false_eq_true, List.mem_map]
+      exact ⟨svc, hat, rfl⟩
+
+/-- **`__init__.py` on every directory of a nested import path**: a per-view template (`%sub/__init__.py`,
+`%sub/types/__init__.py`, `%sub/services/__init__.py`, …) is rendered for the sub-package of every target file
+AND for every package between it and the API package, populated or not. -/
+theorem per_view_file_on_every_prefix (o : Opts) (nm : Naming) (ps : List ProtoAt) (tname : Str)
+    (hon : templateOn o tname) (hs : hasVar (parseTemplate tname) .sub = true)
+    (hp : hasVar (parseTemplate tname) .proto = false) (hv : hasVar (parseTemplate tname) .service = false)
+    (p : ProtoAt) (hmem : p ∈ ps) (v w : Path) (hvw : p.sub = v ++ w) :
+    getFilename ⟨nm, v, none, none⟩ (parseTemplate tname) ∈ renderTemplate o (shapeOf nm ps) tname := by
+  rw [renderTemplate_sub o _ tname hon hs]
+  by_cases hnil : v = []
+  · apply List.mem_append_right
+    subst hnil
+    split <;> simp [renderView, hp, hv, shapeOf]
+  · apply List.mem_append_left
+    simp only [List.mem_flatMap, shapeOf, List.mem_map]
+    have hsubne : p.sub ≠ [] := by rw [hvw]; simp [hnil]
+    have hin : v ++ w ∈ viewsOf (ps.map (·.sub)) := by
+      rw [← hvw]; exact (views_closed _).1 p.sub (List.mem_map.mpr ⟨p, hmem, rfl⟩) hsubne
+    refine ⟨subPkgAt ps v, ⟨v, (views_closed _).2 v w hin hnil, rfl⟩, ?_⟩
+    simp [renderView, hp, hv, subPkgAt]
+
+/-- the hypotheses hold for the shipped templates, and a file two levels below an EMPTY intermediate package is
+placed (and its parents get their `__init__.py`) as stated -/
+example :
+    let o : Opts := ⟨[['g','r','p','c']], false, false, false⟩
+    let nm : Naming := ⟨[['a','c','m','e']], ['l','i','b'], ['v','1'], ['l','i','b','_','v','1']⟩
+    let ps : List ProtoAt := [⟨[], "lib".toList, ["library".toList]⟩, ⟨["admin".toList, "audit".toList], "log".toList, []⟩]
+    viewsOf (ps.map (·.sub)) = [["admin".toList], ["admin".toList, "audit".toList]] ∧
+    "%namespace/%name_%version/%sub/types/%proto.py.j2".toList ∈ templatesDefault ∧
+    "%namespace/%name_%version/%sub/__init__.py.j2".toList ∈ templatesDefault ∧
+    [["acme".toList, "lib_v1".toList, "admin".toList, "audit".toList, "types".toList, "log.py".toList],
+     ["acme".toList, "lib_v1".toList, "types".toList, "lib.py".toList],
+     ["acme".toList, "lib_v1".toList, "admin".toList, "__init__.py".toList],
+     ["acme".toList, "lib_v1".toList, "admin".toList, "audit".toList, "__init__.py".toList],
+     ["acme".toList, "lib_v1".toList, "admin".toList, "audit".toList, "types".toList, "__init__.py".toList]].all
+      (fun f => (responseNames o (shapeOf nm ps) templatesDefault).contains f) = true := by decide +kernel
+
+end Nested
 
 end GapicModel.Props.C11
